@@ -6,6 +6,7 @@ import ast
 
 from nvsa import effects, j2front, pyfront
 from nvsa.j2front import xs
+from nvsa.report import AnalysisError
 
 AUDIT = "nunavut.embed_auditing_info"
 SAFE_PATH_ATTRS = {"name", "stem", "suffix"}
@@ -150,7 +151,22 @@ def rule_platform_version(ctx, px):
     n = 0
     pv = _returned_local(f.node)
     if pv is None:
-        raise AnalysisError("anchor changed: _create_platform_version no longer returns a local mapping")
+        # the mapping is returned as a literal, one per path: every key but python_version only on paths where the flag is set
+        for path in pyfront.enumerate_paths(f.node.body):
+            if path.outcome != "return":
+                continue
+            rv = path.stmts[-1].value
+            if not isinstance(rv, ast.Dict):
+                raise AnalysisError("anchor changed: _create_platform_version returns neither a local mapping nor a mapping literal")
+            terms = pyfront.guard_terms([c_ for c_ in path.conds if not isinstance(c_[0], str)])
+            flagged = ("embed_auditing_info", True) in terms
+            for k_ in rv.keys:
+                key = ast.unparse(k_) if k_ is not None else "**"
+                n += 1
+                ok = flagged or key == "'python_version'"
+                ctx.ob(R, f.module.rel, f"{f.short} platform_version[{key}]", ok,
+                       "" if ok else "platform datum exposed to templates without the auditing guard", rv.lineno)
+        pv = "\x00"
     for st, g in pyfront.walk_guarded(f.node.body):
         if isinstance(st, ast.Assign):
             for tg in st.targets:
@@ -288,6 +304,19 @@ def _chk_python_version(site, pm, px):
     st = _stmt(site, pm)
     pv = _returned_local(site.func.node) if site.func is not None else None
     ok = isinstance(st, ast.Assign) and pv is not None and ast.unparse(st.targets[0]) == f"{pv}['python_version']"
+    if not ok and site.func is not None:
+        # ... or it is the value of the 'python_version' key of the returned literal(s) - directly, or through a local that is used for
+        # nothing else
+        holders = {site.node}
+        if isinstance(st, ast.Assign) and len(st.targets) == 1 and isinstance(st.targets[0], ast.Name) and st.value is site.node:
+            nm = st.targets[0].id
+            uses = [n_ for n_ in ast.walk(site.func.node) if isinstance(n_, ast.Name) and n_.id == nm and isinstance(n_.ctx, ast.Load)]
+            vals = [v_ for d_ in ast.walk(site.func.node) if isinstance(d_, ast.Dict) for k_, v_ in zip(d_.keys, d_.values)
+                    if isinstance(k_, ast.Constant) and k_.value == "python_version"]
+            ok = bool(uses) and all(any(u_ is v_ for v_ in vals) for u_ in uses)
+        else:
+            ok = any(isinstance(d_, ast.Dict) and any(isinstance(k_, ast.Constant) and k_.value == "python_version" and v_ is site.node for k_, v_ in zip(d_.keys, d_.values))
+                     for d_ in ast.walk(site.func.node))
     return ok, "interpreter version is reported as part of the tool version"
 
 
@@ -320,7 +349,8 @@ def _chk_unordered_then_sorted(site, pm, px):
 
     def unordered(e):
         return isinstance(e, (ast.Set, ast.SetComp)) or (isinstance(e, ast.Call) and effects.dotted(e.func) in ("set", "frozenset"))
-    if not rets or not all(unordered(r.value) for r in rets):
+    is_gen = any(isinstance(n, (ast.Yield, ast.YieldFrom)) for n in ast.walk(f.node)) and not rets
+    if not is_gen and (not rets or not all(unordered(r.value) for r in rets)):
         return False, ""
     uses = []
     for g in [x for x in px.all_funcs if x.module is f.module]:
@@ -337,7 +367,7 @@ def _chk_unordered_then_sorted(site, pm, px):
                         break
                 uses.append(ok)
     ok = bool(uses) and all(uses)
-    return ok, f"{f.short} returns an unordered set and each of its {len(uses)} call(s) is an argument of sorted(...)"
+    return ok, f"{f.short} hands back an unordered collection / a stream and each of its {len(uses)} call(s) is an argument of sorted(...)"
 
 
 def _chk_support_files_order(site, pm, px):
